@@ -50,6 +50,12 @@ CLAIMED = {
  "C19": ("TLA+ state machine of the range() generator loop (MC_Range: no drift w.r.t. the closed form, inside, strictly monotone as an action property, termination under weak fairness) + closed form Kth (OpsRange); TLC trace validation of recorded ranges in lock-step with the closed form",
          "TLC model-checks the generator loop on small intervals over the synthetic zones (starts on days 29-31 with month/year steps, DST days, inverted and absolute intervals) for drift-freedom, containment, strict monotonicity and termination (liveness, no state constraint); every recorded Interval.range()/iteration - month-end starts x month/year steps 1..12, ranges across transitions of every zone x 8 units, forward/inverted/absolute, Date/naive/UTC, up to 10^4 steps - is judged by TLC: sampled values (first, last, middle) against the closed form computed from the start, the stopping point (last not beyond, next beyond), end yielded iff reachable, containment; `x in interval` against start <= x <= end",
          "TLC, tz database as above, harness projection; no verdict where an end-point or the stopping point sits on an ambiguous wall time of a shared tzinfo (CPython orders those by wall clock) or the range crosses a wholly skipped day (MC_Range shows monotonicity and C04 are incompatible there)", "7 C19"),
+ "C07": ("TLA+ character-level ISO 8601 grammar: generator (IsoForms.RenderForm/DenoteForm) and recogniser (IsoText.Recognise) model-checked for agreement, renderers inverted by the recogniser (MC_IsoText); TLC trace validation of parse() on generated forms, whole years of dates in six forms, and renderer round trips, both parser back-ends",
+         "TLC checks generator/recogniser agreement over boundary forms incl. impossible dates, weeks and ordinals; every recorded parse - {calendar, ordinal, week} x {basic, extended} x {date only, T/space + hh, hh:mm, hh:mm:ss, fractions of 1..9 digits after '.' or ','} x {none, Z, +-hh, +-hh:mm} x exact x tz over boundary field values, through parse() and through each low-level parser - is judged by TLC against the denoted value (the spec renders the text from the structured form itself); whole years of dates in the six date forms per back-end (seed-rotated 1/40 of the years 1583..9999 in the quick tier, all in the thorough tier); parse() inverting isoformat/str/to_iso8601/rfc3339/atom/w3c",
+         "TLC, harness projection; the texts of the year scans are rendered by the harness with the standard library (three per scan are re-rendered by the spec)", "7 C07"),
+ "C13": ("TLA+ ISO 8601 duration grammar with arbitrary-length numbers (IsoText.RecDuration over BigNat limbs, exact rational fraction rounded to the microsecond) and interval forms; TLC trace validation of parsed durations/intervals in both back-ends",
+         "every recorded parse of a duration string - all component subsets x values up to 10+ digits x fraction strings of 1..9 digits on each admissible unit x '.'/',' , the ill-formed classes the property names, numbers too large to represent - through parse() and each low-level parser is judged by TLC: years/months as given, remaining length equal to the exact value, rejection where demanded; the three interval forms against Add/Subtract of the spec",
+         "TLC, harness projection; fractions whose exact value is a half-microsecond tie are not judged", "7 C13"),
 }
 NOT_YET = "check not built yet in this round (planned: see DESIGN.md section 7)"
 
